@@ -28,21 +28,21 @@ type Path struct {
 	Cut    bool            // ended at a Stop block or because no edge was left
 
 	// set on paths produced by ExpandInline
-	flat   []PathInstr                   // instructions in execution order, callee bodies spliced in after their call
+	flat   []PathInstr                  // instructions in execution order, callee bodies spliced in after their call
 	Params map[*ssa.Parameter]ssa.Value // inlined callee parameter -> argument at the call site
 	Rets   map[ssa.Value][]ssa.Value    // inlined call -> the values its callee path returned
 
-	live map[string]bool      // term -> value, currently valid atoms
-	eq   map[string]string    // term == const known
-	neq  map[string][]string  // term != consts known
+	live map[string]bool     // term -> value, currently valid atoms
+	eq   map[string]string   // term == const known
+	neq  map[string][]string // term != consts known
 	edge map[[2]int]int
 }
 
 // PathOpts configures EnumPaths.
 type PathOpts struct {
-	Start      *ssa.BasicBlock
-	Stop       func(b *ssa.BasicBlock) bool
-	Assume     func(p *Path, cond ssa.Value, term string) (val, known bool)
+	Start       *ssa.BasicBlock
+	Stop        func(b *ssa.BasicBlock) bool
+	Assume      func(p *Path, cond ssa.Value, term string) (val, known bool)
 	MaxPaths    int
 	BlockVisits int // how often one block may be entered on a path (default 2: one loop iteration; 3: two iterations)
 }
